@@ -83,6 +83,64 @@ harness.append(('c15_unpack_le', 'Unpack for UintNReader', ['C15.unpack.uint32_l
                 'C15.unpack.uint128_le: Uint128Reader::unpack is from_le_bytes', 'C15.unpack.uint32_bytes: byte i has weight 256^i']))
 for t_ in ('u32', 'u64', 'u128'):
     functions.append('  { file = "util/gen-types/src/conversion/primitive.rs", path = "impl Unpack<%s> for packed::Uint%sReader<\'r>::fn unpack" },' % (t_, t_[1:]))
+
+# ---- owned entities: accessors of the fixed-size structs (second unit, c15_entity) ----
+emod, eharness, efunctions = ['''
+use crate::packed::*;
+use crate::prelude::*;
+use molecule::bytes::Bytes;
+'''], [], []
+for h, r, f, fields in structs:
+    e = r[:-len('Reader')]
+    total = sum(s for _, s in fields)
+    for fn_, _ in fields:
+        efunctions.append('  { file = "%s", path = "impl %s::fn %s" },' % (f, e, fn_))
+    efunctions.append('  { file = "%s", path = "impl %s::fn as_reader" },' % (f, e))
+    hn = h.replace('c15_', 'c15e_')
+    body = ['#[cfg_attr(kani, kani::proof)]', '#[cfg_attr(not(kani), test)]', 'fn %s() {' % hn,
+            '    let buf: [u8; %d] = vsrc::any();' % total,
+            '    let ent = %s::new_unchecked(Bytes::copy_from_slice(&buf[..]));' % e]
+    obs = []
+    off = 0
+    for fn_, sz in fields:
+        body.append('    { let f = ent.%s(); let fs = f.as_slice(); assert!(fs.len() == %d && fs == &buf[%d..%d], "C15.entity.%s.field_%s_is_schema_bytes"); }' % (fn_, sz, off, off + sz, e, fn_))
+        obs.append('C15.entity.%s.field_%s_is_schema_bytes: %s() holds bytes [%d, %d) of the entity' % (e, fn_, fn_, off, off + sz))
+        off += sz
+    body.append('    assert!(ent.as_slice() == &buf[..] && ent.as_reader().as_slice() == &buf[..], "C15.entity.%s.as_slice_and_reader_are_the_bytes");' % e)
+    obs.append('C15.entity.%s.as_slice_and_reader_are_the_bytes: as_slice() and as_reader() expose exactly the constructed bytes' % e)
+    body += ['    #[cfg(kani)]', '    kani::cover!(true, "reach:%s");' % hn, '}', '']
+    emod.append('\n'.join(body))
+    eharness.append((hn, e, obs))
+ehead = '''# GENERATED by tools/gen_c15.py -- edit the generator, not this file
+unit   = "c15_entity"
+engine = "kani-overlay"
+serves = ["C15"]
+tier   = "quick"
+crate  = "ckb-gen-types"
+claim  = "owned fixed-size molecule entities: every field accessor returns exactly the bytes the schema assigns to that field, and as_slice()/as_reader() expose the constructed bytes (so reading an entity field by field and rebuilding reproduces the bytes)"
+modfile = "util/gen-types/src/__verif_c15_entity.rs"
+moddecl = { file = "util/gen-types/src/lib.rs", text = "mod __verif_c15_entity;" }
+mem_gb = 24
+
+trusted = [
+  "Kani/CBMC bit-precise semantics of the compiled ckb-gen-types crate and of the bytes crate (Bytes::copy_from_slice / Bytes::slice, real code, unmodified)",
+  "the expected field order and sizes are transcribed from the molecule schemas util/gen-types/schemas/{blockchain,extensions}.mol",
+  "all byte values symbolic at the exact total size; loop-free => complete",
+]
+
+functions = [
+%s
+]
+
+module_text = \'\'\'
+%s
+\'\'\'
+
+''' % ('\n'.join(efunctions), '\n'.join(emod))
+etail = []
+for h, r, obs in eharness:
+    etail.append('[[harness]]\nname = "%s"\nfunction = "%s"\nobligations = [\n%s\n]\n' % (h, r, '\n'.join('  "%s",' % o for o in obs)))
+open(os.path.join(ROOT, 'contracts', 'c15_entity.toml'), 'w').write(ehead + '\n'.join(etail))
 head = '''# GENERATED by tools/gen_c15.py -- edit the generator, not this file
 unit   = "c15_layout"
 engine = "kani-overlay"
